@@ -14,6 +14,7 @@ RULE = (
     "[-30, 30] (plus values at rounding boundaries) with any purity/ploidy/method/filter for the non-negativity clause. "
     "Non-trivial = a configuration containing a row with n != x or a sex-chromosome/PAR row (all grid cases are); distinct = distinct case JSON."
 )
+CLI_SHARE = 4  # one case in CLI_SHARE also goes through the command line (vk/cli.py)
 QUICK = {"examples": 3200, "shards": 16, "budget_s": 300}
 THOROUGH = {"examples": 32000, "shards": 16, "budget_s": 2400}
 EXHAUSTIVE = {"quick": True, "thorough": True}
